@@ -319,6 +319,22 @@ UpdateTwo(t, u, k) ==
                /\ cache' = [cache EXCEPT ![t] = Loaded(t2, TRUE), ![u] = Loaded(u2, TRUE)]
                /\ dirty' = IF mt = {} THEN dirty ELSE dirty \cup {t, u}
                /\ UNCHANGED <<disk, created, temp, ended, envn, enc>>
+\* DELETE ux, tx FROM t tx LEFT JOIN u ux ON tx.id = ux.id WHERE tx.id = k : one statement deleting from two tables; the rows
+\* of t with id = k go, and the rows of u they are joined with; each table reports its own count (the first-named target may
+\* well have none), and each table with a deleted row belongs to the transaction's changes
+DeleteTwo(t, u, k) ==
+  LET tT == ForUpdate(t)  uT == ForUpdate(u) IN
+  /\ t # u /\ t # TempT /\ u # TempT /\ ~tT.absent /\ ~uT.absent
+  /\ Has(tT, "id") /\ Has(uT, "id")
+  /\ LET ti == ColIdx(tT, "id")  ui == ColIdx(uT, "id")
+         mt == {i \in 1..Len(tT.rows) : tT.rows[i][ti] = k}
+         mu == IF mt = {} THEN {} ELSE {j \in 1..Len(uT.rows) : uT.rows[j][ui] = k}
+         t2 == T(tT.cols, SelectSeq(tT.rows, LAMBDA r : r[ti] # k))
+         u2 == IF mt = {} THEN uT ELSE T(uT.cols, SelectSeq(uT.rows, LAMBDA r : r[ui] # k))
+     IN /\ out' = Val(<<ToString(Cardinality(mt)), ToString(Cardinality(mu))>>)
+        /\ cache' = [cache EXCEPT ![t] = Loaded(t2, TRUE), ![u] = Loaded(u2, TRUE)]
+        /\ dirty' = dirty \cup (IF mt = {} THEN {} ELSE {t}) \cup (IF mu = {} THEN {} ELSE {u})
+        /\ UNCHANGED <<disk, created, temp, ended, envn, enc>>
 AddFirst(t)      == Dml(t, AddFirstOp(ForUpdate(t)), TRUE)
 AddFail(t, k)    == Dml(t, AddFailOp(ForUpdate(t), k), TRUE)
 AddCol(t)        == Dml(t, AddColOp(ForUpdate(t)), TRUE)
@@ -450,6 +466,7 @@ Do(a) ==
        [] a.act = "updatejoin" -> UpdateJoin(a.t, a.u)
        [] a.act = "deletejoin" -> DeleteJoin(a.t, a.u)
        [] a.act = "updatetwo" -> UpdateTwo(a.t, a.u, a.k)
+       [] a.act = "deletetwo" -> DeleteTwo(a.t, a.u, a.k)
        [] a.act = "addfirst" -> AddFirst(a.t)
        [] a.act = "addfail"  -> AddFail(a.t, a.k)
        [] a.act = "updateswap" -> UpdateSwap(a.t, a.k)
@@ -488,7 +505,7 @@ Actions ==
   \cup {A("selectpath", t, 0, x) : t \in AllFiles, x \in 1..4}          \* x: the spelling
   \cup {A("insertpath", t, k, x) : t \in AllFiles, k \in Keys, x \in 1..4}
   \cup {A3("createas", u, k) : u \in Tables \ {NewFile}, k \in 0..3}
-  \cup {[act |-> "updatetwo", t |-> t, u |-> u, k |-> k, x |-> 0] : t \in AllFiles, u \in AllFiles, k \in Keys \cup {7}}
+  \cup {[act |-> x, t |-> t, u |-> u, k |-> k, x |-> 0] : x \in {"updatetwo", "deletetwo"}, t \in AllFiles, u \in AllFiles, k \in Keys \cup {7}}
   \cup {A("callnoop", "", 0, 0)}
   \cup {A("callins", t, k, 0) : t \in Tables \ {NewFile}, k \in Keys}
   \cup {A(x, "", 0, 0) : x \in {"create", "commit", "rollback"}}
